@@ -195,3 +195,102 @@ Theorem Base_NumD_nexp_error : forall x : D, Qabs (D2Q x) <= 65536 ->
   (Rabs (Q2R (D2Q (@nexp D NumD x)) - exp (Q2R (D2Q x))) <= exp (Q2R (D2Q x)) / 2 ^ 98)%R.
 Proof. exact NumD_nexp_spec. Qed.
 Print Assumptions Base_NumD_nexp_error.
+
+(** ** 7. the logarithm [Qln], the fast exponentials and logarithm (trusted-base reduction, part 2)
+    Proofs: Proofs/FixSeries.v (fixed-point series with p fractional bits, signed invariants, atanh remainder by the
+    mean value theorem, binary argument reduction), Proofs/QlnSpec.v, Proofs/FastSpec.v, Proofs/FastLnSpec.v.
+    All bounds are against Coq's real [exp] / [ln]; constants (ln 2 to 160 bits, Taylor remainders) are checked by
+    the [interval] tactic at explicit precision. *)
+From Dadi Require Import Proofs.FixSeries Proofs.QlnSpec Model.QFast Model.DFast Proofs.FastSpec Proofs.FastLnSpec.
+Local Open Scope Q_scope.
+
+(** the 160-bit constant ln 2 of Base/NumQ.v (true error 44.45 2^-160) *)
+Theorem Base_fln2_error : (Rabs (IZR NumQ.fln2 / 2 ^ 160 - ln 2) <= 45 / 2 ^ 160)%R.
+Proof. exact (eq_ind _ (fun u => (Rabs (IZR NumQ.fln2 / u - ln 2) <= 45 / u)%R) QlnSpec.fln2_spec _ QexpSpec.U_val). Qed.
+Print Assumptions Base_fln2_error.
+Theorem Base_Qln2_error : (Rabs (Q2R Qln2 - ln 2) <= 45 / 2 ^ 160)%R.
+Proof. exact QlnSpec.Qln2_spec. Qed.
+Print Assumptions Base_Qln2_error.
+
+(** Qln against the real logarithm: ABSOLUTE error (226 + 45 |e|) 2^-160 for every positive rational,
+    e = log2 num - log2 den the binary reduction exponent; <= 2^-144 on [2^-1024, 2^1024] *)
+Theorem Base_Qln_error_gen : forall x : Q, (0 < Qnum x)%Z ->
+  (Rabs (Q2R (Qln x) - ln (Q2R x)) <= (226 + 45 * IZR (Z.abs (Z.log2 (Qnum x) - Z.log2 (Zpos (Qden x))))) / 2 ^ 160)%R.
+Proof. exact QlnSpec.Qln_spec_gen. Qed.
+Print Assumptions Base_Qln_error_gen.
+
+Theorem Base_Qln_error : forall x : Q, / inject_Z (2 ^ 1024) <= x -> x <= inject_Z (2 ^ 1024) ->
+  (Rabs (Q2R (Qln x) - ln (Q2R x)) <= / 2 ^ 144)%R.
+Proof. exact QlnSpec.Qln_spec. Qed.
+Print Assumptions Base_Qln_error.
+
+(** the model's totalisation: ln of a non-positive rational is 0 *)
+Theorem Base_Qln_nonpos : forall x : Q, (Qnum x <= 0)%Z -> Qln x = 0.
+Proof. exact QlnSpec.Qln_nonpos. Qed.
+Print Assumptions Base_Qln_nonpos.
+
+(** "relative error below 2^-100" (comment in Base/NumQ.v) is FALSE for Qln near 1 (the logarithm vanishes, the
+    absolute error does not): Qln (1 + 2^-200) = 0.  It holds wherever |ln x| >= 2^-44. *)
+Theorem Base_Qln_relative_refuted : exists x : Q, 1 < x /\ x <= 2 /\ Qln x = 0 /\ (0 < ln (Q2R x))%R.
+Proof. exact QlnSpec.Qln_relative_refuted. Qed.
+Print Assumptions Base_Qln_relative_refuted.
+Theorem Base_Qln_relative_away : forall x : Q, / inject_Z (2 ^ 1024) <= x -> x <= inject_Z (2 ^ 1024) ->
+  (/ 2 ^ 44 <= Rabs (ln (Q2R x)))%R -> (Rabs (Q2R (Qln x) - ln (Q2R x)) <= Rabs (ln (Q2R x)) / 2 ^ 100)%R.
+Proof. exact QlnSpec.Qln_relative_away. Qed.
+Print Assumptions Base_Qln_relative_away.
+
+(** the [nln] slot of NumD (one rounding of Qln): absolute error <= 2^-117 on [2^-1024, 2^1024] (|ln x| <= 710) *)
+Theorem Base_NumD_nln_error : forall x : D, / inject_Z (2 ^ 1024) <= D2Q x -> D2Q x <= inject_Z (2 ^ 1024) ->
+  (Rabs (Q2R (D2Q (@nln D NumD x)) - ln (Q2R (D2Q x))) <= / 2 ^ 117)%R.
+Proof. exact QlnSpec.NumD_nln_spec. Qed.
+Print Assumptions Base_NumD_nln_error.
+
+(** [Dexp_fast] (Model/DFast.v, Bignums; the [nexp] slot of NumDF on which the C01 correspondence runs): relative
+    error <= 2^-126 on |x| <= 2^16, for every input (normalised or not), including the final Dnorm rounding and the
+    two shortcuts (x = 0, |x| < 2^-171) *)
+Theorem Base_Dexp_fast_error : forall x : D, Qabs (D2Q x) <= 65536 ->
+  (Rabs (Q2R (D2Q (Dexp_fast x)) - exp (Q2R (D2Q x))) <= exp (Q2R (D2Q x)) / 2 ^ 126)%R.
+Proof. exact FastSpec.Dexp_fast_spec. Qed.
+Print Assumptions Base_Dexp_fast_error.
+Theorem Base_NumDF_nexp_error : forall x : D, Qabs (D2Q x) <= 65536 ->
+  (Rabs (Q2R (D2Q (@nexp D NumDF x)) - exp (Q2R (D2Q x))) <= exp (Q2R (D2Q x)) / 2 ^ 126)%R.
+Proof. exact FastSpec.NumDF_nexp_spec. Qed.
+Print Assumptions Base_NumDF_nexp_error.
+Theorem Base_NumDF_nln_error : forall x : D, / inject_Z (2 ^ 1024) <= D2Q x -> D2Q x <= inject_Z (2 ^ 1024) ->
+  (Rabs (Q2R (D2Q (@nln D NumDF x)) - ln (Q2R (D2Q x))) <= / 2 ^ 117)%R.
+Proof. exact FastSpec.NumDF_nln_spec. Qed.
+Print Assumptions Base_NumDF_nln_error.
+
+(** [Qexp_fast] (Model/QFast.v, the [nexp] slot of NumQfast used by C11): relative error (133 + B/10) 2^-96 on
+    |x| <= B <= 2^64: 2^-88 on |x| <= 1024, 2^-84 (the accuracy claimed in QFast.v) on |x| <= 2^15 *)
+Theorem Base_Qexp_fast_error_gen : forall (x : Q) (B : R), (Rabs (Q2R x) <= B)%R -> (B <= 2 ^ 64)%R ->
+  (Rabs (Q2R (Qexp_fast x) - exp (Q2R x)) <= (133 + B / 10) / 2 ^ 96 * exp (Q2R x))%R.
+Proof. exact FastSpec.Qexp_fast_spec_gen. Qed.
+Print Assumptions Base_Qexp_fast_error_gen.
+Theorem Base_Qexp_fast_error : forall x : Q, Qabs x <= 1024 ->
+  (Rabs (Q2R (@nexp Q NumQfast x) - exp (Q2R x)) <= exp (Q2R x) / 2 ^ 88)%R.
+Proof. exact FastSpec.Qexp_fast_spec. Qed.
+Print Assumptions Base_Qexp_fast_error.
+Theorem Base_Qexp_fast_error_84 : forall x : Q, Qabs x <= 32768 ->
+  (Rabs (Q2R (Qexp_fast x) - exp (Q2R x)) <= exp (Q2R x) / 2 ^ 84)%R.
+Proof. exact FastSpec.Qexp_fast_spec_84. Qed.
+Print Assumptions Base_Qexp_fast_error_84.
+
+(** [Qln_fast] (the [nln] slot of NumQfast): absolute error (60 + |e|) 2^-96 for every positive rational (the table
+    ln((2k+1)/64), k = 16..63, is tied to Qln by computation and Qln to ln by Base_Qln_error_gen);
+    <= 2^-88 (the accuracy claimed in QFast.v) on [2^-195, 2^195] *)
+Theorem Base_Qln_fast_error_gen : forall x : Q, (0 < Qnum x)%Z ->
+  (Rabs (Q2R (Qln_fast x) - ln (Q2R x)) <= (60 + 1 * IZR (Z.abs (Z.log2 (Qnum x) - Z.log2 (Zpos (Qden x))))) / 2 ^ 96)%R.
+Proof. exact FastLnSpec.Qln_fast_spec_gen. Qed.
+Print Assumptions Base_Qln_fast_error_gen.
+Theorem Base_Qln_fast_error : forall x : Q, / inject_Z (2 ^ 195) <= x -> x <= inject_Z (2 ^ 195) ->
+  (Rabs (Q2R (@nln Q NumQfast x) - ln (Q2R x)) <= / 2 ^ 88)%R.
+Proof. exact FastLnSpec.Qln_fast_spec. Qed.
+Print Assumptions Base_Qln_fast_error.
+
+(** sharper form of the NumD logarithm slot: the Qln error plus one relative rounding (2^-127) of the result *)
+Theorem Base_NumD_nln_error_rel : forall x : D, / inject_Z (2 ^ 1024) <= D2Q x -> D2Q x <= inject_Z (2 ^ 1024) ->
+  (Rabs (Q2R (D2Q (@nln D NumD x)) - ln (Q2R (D2Q x)))
+   <= / 2 ^ 144 + / 2 ^ 127 * (Rabs (ln (Q2R (D2Q x))) + / 2 ^ 144))%R.
+Proof. exact QlnSpec.NumD_nln_spec_rel. Qed.
+Print Assumptions Base_NumD_nln_error_rel.
